@@ -940,7 +940,7 @@ func (c *cmp) shorthandAugment(rng *rand.Rand, res *schema.Resolver, files []Fil
 // (Find creates an absent one on demand): the node returned must belong to that very rpc
 // or action - its Parent, its Path and the way back through ".." - also when the rpc or
 // action is one of several copies of a grouping or augment.
-func (c *cmp) implicitIO() {
+func (c *cmp) implicitIO(res *schema.Resolver) {
 	var all []*schema.X
 	for x := range c.x2e {
 		if x.Kind == "rpc" || x.Kind == "action" {
@@ -973,6 +973,38 @@ func (c *cmp) implicitIO() {
 					c.bad(x, "find-io", "the %s of %s is the node already returned for %s", io, x.Path(), seen[got])
 				default:
 					seen[got] = x.Path()
+					// and from there an absolute path leads anywhere, as from every other
+					// node of the file the rpc or action was written in
+					if x.DefFile == nil || e.Node == nil {
+						break
+					}
+					var rm *schema.Mod
+					for m, rx := range res.Roots {
+						if rx == rootOf(x) {
+							rm = m
+						}
+					}
+					pfx := ""
+					if rm == x.DefFile.Module() {
+						pfx = x.DefFile.Prefix
+					} else {
+						for _, im := range x.DefFile.Imports {
+							if im.Mod == rm {
+								pfx = im.Prefix
+							}
+						}
+					}
+					if pfx == "" {
+						break
+					}
+					path := ""
+					for _, n := range names(x) {
+						path += "/" + pfx + ":" + n
+					}
+					c.Lookups++
+					if back := got.Find(path); back != e {
+						c.bad(x, "find-absolute", "Find(%s) from the %s of %s did not return the %s", path, io, x.Path(), x.Kind)
+					}
 				}
 			}()
 		}
@@ -1142,7 +1174,7 @@ func Run(j *job.Job, s *job.Sink) {
 			}
 			if len(c.out) == 0 {
 				c.findChecks(rng, res, 60)
-				c.implicitIO()
+				c.implicitIO(res)
 			}
 			if len(c.out) == 0 && j.Property == "C17" && i%4 == 0 {
 				c.heldTree(rng, ms)
